@@ -38,12 +38,16 @@ impl Prop for C03 {
         }
     }
     fn rule(&self) -> &'static str {
-        "one run = one generated program (G_all swarm; 1 run in 12: standard-library procedures - SHA-256, BLAKE3, Keccak, u64, u256, memcopy - on random operands) executed by the real processor against the honest simulated host; every main transition constraint is evaluated on every non-exempt row, every boundary assertion is checked, the auxiliary segment is built under seeded challenges and its transition constraints and assertions are checked, the trace-length law is recomputed, and the execution is repeated under a second expected-cycles hint (main segments must be identical). Non-trivial = execution succeeded (all checks ran); distinct = digest of (source, inputs, advice, knobs, challenges)."
+        "one run = one generated program (G_all swarm; 1 run in 12: standard-library procedures - SHA-256, BLAKE3, Keccak, u64, u256, memcopy - on random operands; 1 run in 10: a program searched so that its cycles, range-checker rows or chiplet rows end exactly at, or one or two rows away from, a power of two) executed by the real processor against the honest simulated host; every main transition constraint is evaluated on every non-exempt row, every boundary assertion is checked, the auxiliary segment is built under seeded challenges and its transition constraints and assertions are checked, the trace-length law is recomputed, and the execution is repeated under a second expected-cycles hint (main segments must be identical). Non-trivial = execution succeeded (all checks ran); distinct = digest of (source, inputs, advice, knobs, challenges)."
     }
     fn generate(&self, rng: &mut Rng, _tier: Tier, _index: u64) -> Value {
         if rng.chance(1, 12) {
             // standard-library procedures on random operands
             return pop::stdlib_scenario(rng);
+        }
+        if rng.chance(1, 10) {
+            // a component (cycles, range checker, chiplets) sized to end right at a power of two
+            return crate::gen::boundary::scenario(rng);
         }
         pop::swarm_scenario(rng)
     }
@@ -113,7 +117,16 @@ impl Prop for C03 {
         }
         // --- trace length law -------------------------------------------------------------------
         // the main segments need one row beyond the executed cycles: the final-state (first HALT) row
-        let need = (summary.main_trace_len() + 1).max(summary.range_trace_len()).max(summary.chiplets_trace_len().trace_len());
+        // ... and the chiplets one row beyond their own rows (the last memory row sends its range
+        // checks one row later); the sum is recomputed here, not taken from ChipletsLengths::trace_len
+        let cl = summary.chiplets_trace_len();
+        let chiplet_rows = cl.hash_chiplet_len() + cl.bitwise_chiplet_len() + cl.memory_chiplet_len() + cl.kernel_rom_len();
+        let need = (summary.main_trace_len() + 1).max(summary.range_trace_len()).max(chiplet_rows + 1);
+        for (what, l) in [("cycles", summary.main_trace_len() + 1), ("range", summary.range_trace_len()), ("chiplets", chiplet_rows + 1)] {
+            if (l + 1).is_power_of_two() && l + 1 == len {
+                out.count(&format!("probe:component-fills-the-trace-exactly|{}", what));
+            }
+        }
         if !len.is_power_of_two() || len < 64 {
             out.violate("C03/length/not-power-of-two-or-below-64", format!("trace length {len}"));
         }
